@@ -391,21 +391,27 @@ impl ParsleyParser for XrefSectP {
         let mut ws = WhitespaceEOL::new(false);
         ws.parse(buf)?;
 
-        // There is no specified terminator for an xref section, so
-        // keep consuming xref subsections until we have an error.
+        // There is no specified terminator for an xref section: it
+        // needs at least one subsection, and it ends where no further
+        // subsection header (a number, after optional blanks) starts.
+        // An error inside a subsection, e.g. a malformed entry, is an
+        // error of the section wherever that subsection sits; it must
+        // not silently truncate the table.
         let mut sects = Vec::new();
         loop {
-            let mut p = XrefSubSectP;
-            let sect = p.parse(buf);
-            if let Err(e) = sect {
-                // If this is an error on the first subsection, report
-                // this error as the result.
-                if sects.is_empty() {
-                    return Err(e)
+            if !sects.is_empty() {
+                let cursor = buf.get_cursor();
+                let mut ws = WhitespaceNoEOL::new(true);
+                ws.parse(buf)?;
+                let at_header = matches!(buf.peek(), Some(b'0' ..= b'9') | Some(b'+') | Some(b'-'));
+                if !at_header {
+                    break
                 }
-                break
+                buf.set_cursor_unsafe(cursor);
             }
-            sects.push(sect.unwrap());
+            let mut p = XrefSubSectP;
+            let sect = p.parse(buf)?;
+            sects.push(sect);
         }
         let end = buf.get_cursor();
         Ok(LocatedVal::new(XrefSectT { sects }, start, end))
